@@ -65,7 +65,8 @@ CHECKS = {
    text="Coq theorems: is_empty/is_any flags are unconditional (all probes); 'allows all' = yes implies containment for EVERY "
         "constraint shape (single versions, ranges, unions, through the containment walk) on every regular probe; 'allows any' = no "
         "implies disjointness for every shape when union members are sorted and apart (decidable, evaluated at run time); every "
-        "constraint allows all of itself (no hypothesis). The bound comparisons are re-translated from /repo on every run and proved "
+        "constraint allows all of itself (no hypothesis); both answers are sound on the results of any history of union / intersection / "
+        "difference over mutually regular bounds (the sortedness hypothesis is preserved: C12_answers_on_expressions). The bound comparisons are re-translated from /repo on every run and proved "
         "equal to the model's. All walks are tied by correspondence on 4000 generated pairs per quick run; the oracle checks the "
         "five clauses of the property on the implementation (allows_any <-> non-empty intersection included).",
    design="8/C12",
@@ -126,10 +127,12 @@ CHECKS = {
         "fuel and guard state on every class of clauses meeting three premises (exact same-variable merge that stays in the class, sound "
         "and symmetric key equality; the class is threaded through all 17 invariants) - and with NO premise left for markers over ==/!= "
         "comparisons of string variables and of 'extra' with plain values (Proofs/StringClass.v, ExtraClass.v, via the C16 algebra and SingleMarker.__init__ on the "
-        "rebuilt text). Tie: the model's own simplifier must produce the implementation's marker text byte for byte and its truth table "
+        "rebuilt text), for markers over comparison clauses (>=, <=, >, <, ==, !=) of python_full_version with mutually regular three-component literals on "
+        "environments whose interpreter is regular for them (Proofs/VersionClass.v, via the closed class of C05 and the printed text of the merged constraint), "
+        "and for markers mixing the three kinds. Tie: the model's own simplifier must produce the implementation's marker text byte for byte and its truth table "
         "on the environment grid (500 pairs per quick run); truth tables of the implementation's results are the oracle.",
    design="8/C07",
-   note=BASE_NOTE + "Partial: that version-variable clauses form such a class is not proved (D35 shows substring clauses do not). "
+   note=BASE_NOTE + "Partial: python_version clauses (merged through _merge_python_version_single_markers), in / not in and platform_release clauses are not shown to form such a class (D35 shows substring clauses do not). "
         "Known finding D35 (pinned by the suite).",
    technique="Coq proof (fuel induction over a 20-function mutual fixpoint) + byte-level correspondence of the model's simplifier + truth-table oracle"),
  "C08": dict(
